@@ -25,6 +25,7 @@ def run(ctx):
     leg, vs = r141(ctx)
     r145(ctx)
     r146(ctx)
+    r147(ctx)
     from . import c08
     c08.r85(ctx)
 
@@ -57,7 +58,9 @@ def run(ctx):
         if ok:
             v = cfg.nodes[list(defs)[0]].stmt.value
             ok = isinstance(v, ast.ListComp) and norm(v.generators[0].iter) == 'file_list[1:]' and not v.generators[0].ifs \
-                and norm(v.elt) in ('(fn, pieces[fn])',)
+                and isinstance(v.elt, ast.Tuple) and len(v.elt.elts) == 2 and norm(v.elt.elts[0]) == 'fn' \
+                and all(isinstance(x, ast.Subscript) and norm(x.value) == 'pieces' and 'fn' in norm(x.slice)
+                        for x in ast.walk(v.elt.elts[1]) if isinstance(x, ast.Subscript))
     ctx.ob('R14.3', 'util.metadata_from_many:fast-arm-order-derives-from-the-callers-list', ok,
            'definition of `pieces` reaching the extending loop: %s (fs.cat returns a dict whose order is not the caller\'s)' % d,
            ut.loc(final[0]) if final else ut.loc(f))
@@ -233,3 +236,19 @@ def r146(ctx, rule='R14.6'):
             ok = any(c.func.attr == 'lstrip' and c.args and isinstance(c.args[0], ast.Constant) and c.args[0].value == '/' for c in par)
             ctx.ob(rule, 'util.metadata_from_many:relative-path-without-leading-slash:%s' % norm(x)[:30], ok, norm(x), ut.loc(x))
     ctx.floor(rule, 'relative path computations', n, 2)
+
+
+def r147(ctx, rule='R14.7'):
+    """metadata_from_many given handles: the location of a multi-file dataset is its directory (basepath), not the
+    _metadata file the handle was opened on - row-group paths are relative to the directory; and the concurrently
+    fetched footers are found under the file system's normalised paths"""
+    ut = ctx.repo['util']
+    f = ut.func('metadata_from_many')
+    st = [s for s in iter_child_stmts(f.body) if isinstance(s, ast.Assign) and norm(s.targets[0]) == 'file_list' and 'for pf in pfs' in norm(s.value)]
+    ok = len(st) == 1 and 'pf.basepath' in norm(st[0].value) and 'pf.file_scheme' in norm(st[0].value)
+    ctx.ob(rule, 'util.metadata_from_many:handles-located-by-dataset-directory', ok,
+           '`%s`: pf.fn of a hive/drill handle is .../_metadata' % (norm(st[0])[:110] if st else '?'), ut.loc(st[0]) if st else ut.loc(f))
+    rec = [s for s in iter_child_stmts(f.body) if isinstance(s, ast.Assign) and norm(s.targets[0]) == 'pieces' and isinstance(s.value, ast.ListComp)]
+    ok = len(rec) == 1 and '_strip_protocol(fn)' in norm(rec[0].value)
+    ctx.ob(rule, 'util.metadata_from_many:fetched-footers-found-under-normalised-paths', ok,
+           'fs.cat keys its result by absolute, protocol-less paths; the caller may have given relative ones', ut.loc(rec[0]) if rec else ut.loc(f))
